@@ -455,6 +455,11 @@ func (j *OpenIDConfiguration) UnmarshalJSON(bytes []byte) error {
 	}
 	keysAsJson, _ := json.Marshal(claims["jwks"])
 	j.JWKs = jwk.NewSet()
+	if claims["jwks"] == nil {
+		// absent or JSON null: keep the empty set (unmarshalling null would set the interface to nil,
+		// which callers dereference when looking up the signer's key)
+		return nil
+	}
 
 	return json.Unmarshal(keysAsJson, &j.JWKs)
 }
